@@ -32,6 +32,24 @@ def randomNumberToData (probs : List Rat) (u : Rat) : Int :=
   | some i => (i : Int)
   | none => QGen.C14.fallThrough (probs.length : Int)
 
+/-- the same loop with an arbitrary addition for the running sum: the code adds in IEEE double precision, which is not
+the exact `+`; the theorems that transfer to the float code assume only `add c 0 = c` -/
+def r2dLoopW (add : Rat → Rat → Rat) : List Rat → Rat → Rat → Nat → Option Nat
+  | [], _, _, _ => none
+  | p :: ps, u, cum, idx =>
+    if QGen.C14.hit u (add cum p) then some idx else r2dLoopW add ps u (add cum p) (idx + 1)
+
+/-- the loop driven by the running sums themselves (what the code actually compares the random number with) -/
+def r2dCums : List Rat → Rat → Nat → Option Nat
+  | [], _, _ => none
+  | c :: cs, u, idx => if QGen.C14.hit u c then some idx else r2dCums cs u (idx + 1)
+
+/-- `_random_number_to_data` given the running sums the code computed (floats, as exact rationals) -/
+def randomNumberToDataCums (len : Nat) (cums : List Rat) (u : Rat) : Int :=
+  match r2dCums cums u 0 with
+  | some i => (i : Int)
+  | none => QGen.C14.fallThrough (len : Int)
+
 /-- `generate_data_from_prob_dist` after the random numbers have been drawn -/
 def dataOfUniforms (probs : List Rat) (us : List Rat) : List Int := us.map (randomNumberToData probs)
 
@@ -104,8 +122,9 @@ def drawN {G : Type} (P : PRNG G) : G → Nat → List Rat × G
 /-- the `seed_or_generator` argument -/
 inductive SeedArg
   | none                -- use the global numpy state
-  | int (s : Int)       -- fresh generator
+  | int (s : Int)       -- fresh generator (Python `int`, `s ≥ 0`; MT19937 raises for negative seeds — not modelled)
   | gen (k : Nat)       -- the k-th generator object the caller holds
+  | other               -- anything else that is not a Generator (np.int64, bool, float, …): handed on as it is
 deriving Repr, DecidableEq
 
 /-- the random state of the world: the global numpy state and the caller's generator objects -/
@@ -135,6 +154,7 @@ def toStream {G : Type} (P : PRNG G) (a : SeedArg) : Stream G :=
   | .none => streamAct P QGen.C14.streamOfNone a
   | .int _ => streamAct P QGen.C14.streamOfInt a
   | .gen _ => streamAct P QGen.C14.streamOfOther a
+  | .other => streamAct P QGen.C14.streamOfOther a
 
 /-- read the generator state behind a stream (`none`: the caller passed a generator it does not hold) -/
 def Stream.get {G : Type} (st : Store G) : Stream G → Option G
@@ -248,6 +268,12 @@ def tapePRNG : PRNG Tape where
     | [] => ([], t)
     | c :: r => (c, { t with ms := r })
 
+/-- a tape PRNG whose integer seeds are looked up in a table of recorded streams (driver utility) -/
+def tablePRNG (tbl : List (Int × List Rat)) : PRNG Tape where
+  seed := fun s => ⟨(tbl.lookup s).getD [], []⟩
+  next := tapePRNG.next
+  multi := tapePRNG.multi
+
 def showEmpi (r : Except EmpiErr (List (Int × List Rat))) : String :=
   match r with
   | .error e => s!"err {e.toString}"
@@ -260,6 +286,33 @@ def handle (args : List String) : Option String :=
       let probs ← parseList? parseRat? probs
       let u ← parseRat? u
       some (toString (randomNumberToData probs u))
+  | ["r2dcs", len, cums, u] => do
+      -- the inversion on the running sums the implementation computed (floats as exact rationals)
+      let len ← parseNat? len
+      let cums ← parseList? parseRat? cums
+      let u ← parseRat? u
+      some (toString (randomNumberToDataCums len cums u))
+  | ["dsargs", glob, gens, seeds, jobs] => do
+      -- generate_dataset_from_prob_dists with a LIST of seed arguments: executes genDatasetArgs → genData → toStream with the
+      -- global state, held generator objects and fresh int-seeded generators, all on recorded tapes
+      let glob ← parseList? parseRat? glob
+      let gens ← if gens = "~" then some [] else (gens.splitOn "|").mapM (parseList? parseRat?)
+      let seeds ← if seeds = "~" then some [] else (seeds.splitOn "|").mapM fun e => match e.splitOn "=" with
+        | [k, t] => do some ((← parseInt? k), (← parseList? parseRat? t))
+        | _ => none
+      let jobs ← (jobs.splitOn "|").mapM fun j => match j.splitOn "@" with
+        | [a, p, n] => do
+            let arg ← if a = "N" then some SeedArg.none
+                      else if a = "O" then some SeedArg.other
+                      else if a.startsWith "I" then (String.ofList (a.toList.drop 1)).toInt?.map SeedArg.int
+                      else if a.startsWith "G" then (String.ofList (a.toList.drop 1)).toNat?.map SeedArg.gen
+                      else none
+            some (arg, (← parseList? parseRat? p), (← parseNat? n))
+        | _ => none
+      match genDatasetArgs (tablePRNG seeds) ⟨⟨glob, []⟩, gens.map fun t => ⟨t, []⟩⟩ jobs with
+      | none => some "no-generator"
+      | some (ds, st) =>
+        some s!"{"|".intercalate (ds.map (showList toString))} left={st.glob.us.length},{showList toString (st.gens.map (·.us.length))}"
   | ["data", probs, us] => do
       let probs ← parseList? parseRat? probs
       let us ← parseList? parseRat? us
